@@ -664,4 +664,4 @@ def run(ctx):
             'with a token must be a lower-case defining string of the '
             'grammar, both identifier terminals must fold case, optional '
             'syntax and separators must be suppressed, and label names must '
-            'not reach the section writers.')
+            'not reach the section writers. Also: belief-based name folding in parse actions, DEFtype letter ranges over the four case patterns, remarks run to the end of the line.')
